@@ -1,3 +1,4 @@
+import TinysetModel.Proofs.RemoveSrc
 import TinysetModel.Proofs.ContainsSrc
 import TinysetModel.Proofs.Loops
 import TinysetModel.Proofs.ProgramTotal
@@ -272,6 +273,19 @@ theorem contains_is_the_source_u32 (e sz cap : Nat) (a : Tbl) (he : e < 2 ^ 32) 
     (∀ bits, bits = 0 ∨ bits > 32 → Gen.contains_big_32 e bits a = contains cfg32 (.heap sz cap bits a) e) :=
   ⟨contains_dense_32_eq e sz cap a, fun bits hb => contains_heap_32_eq e sz cap bits a he hb hn,
    fun bits hb => contains_big_32_eq e sz cap bits a hb hn⟩
+
+/-! ### `remove` of the model is `remove` of the current source on the three heap layouts -/
+
+/-- as for SetU64, on tables of at most 2^31 buckets -/
+theorem remove_is_the_source_u32 {D : Type} (g : Rng D) (fuel e sz cap : Nat) (a : Tbl) (he : e < 2 ^ 32)
+    (hn : a.size ≤ 2 ^ 31) (d : D) :
+    (cap = a.size → remove cfg32 g fuel (.heap sz cap 32 a) e d = armOut cap 32 d (Gen.remove_dense_32 e sz a)) ∧
+    (∀ bits, 0 < bits ∧ bits < 32 →
+      remove cfg32 g fuel (.heap sz cap bits a) e d = armOut cap bits d (Gen.remove_heap_32 e sz bits a)) ∧
+    (∀ bits, bits = 0 ∨ bits > 32 →
+      remove cfg32 g fuel (.heap sz cap bits a) e d = armOut cap bits d (Gen.remove_big_32 e sz bits a)) :=
+  ⟨fun hc => remove_dense_32_eq g fuel e sz cap a hc d, fun bits hb => remove_heap_32_eq g fuel e sz cap bits a he hb hn d,
+   fun bits hb => remove_big_32_eq g fuel e sz cap bits a hb hn d⟩
 
 end C02
 
